@@ -215,12 +215,19 @@ def build_harness(cfg, work, log):
         open(mf, "w").write(s)
         shutil.copy(os.path.join(repo(), "go.sum"), os.path.join(work, "go.sum"))
         args += ["-modfile", mf]
-    else:
-        shutil.copy(os.path.join(repo(), "go.sum"), os.path.join(HARNESS, "go.sum"))
     args += ["-o", binp, cfg["harness_pkg"]]
-    # -mod=mod may rewrite harness/go.mod: serialise builds of checks running in parallel
+    # -mod=mod may rewrite harness/go.mod and go.sum: serialise builds of checks running in parallel
     with open(os.path.join(WORKROOT, "gobuild.lock"), "w") as lf:
         fcntl.flock(lf, fcntl.LOCK_EX)
+        if repo() == "/repo":
+            # refresh harness/go.sum from the tree under check, atomically and only when it differs
+            src = open(os.path.join(repo(), "go.sum")).read()
+            dst = os.path.join(HARNESS, "go.sum")
+            cur = open(dst).read() if os.path.exists(dst) else ""
+            if not set(src.splitlines()) <= set(cur.splitlines()):
+                tmp = dst + ".tmp.%d" % os.getpid()
+                open(tmp, "w").write(src)
+                os.replace(tmp, dst)
         rc, o, e, dt = run(args, cwd=HARNESS, env=goenv(), timeout=1800)
         if rc != 0 and "existing contents have changed" in (o + e):
             rc, o, e, dt = run(args, cwd=HARNESS, env=goenv(), timeout=1800)
